@@ -12,9 +12,9 @@ import (
 )
 
 var codecRepoInstr = map[string]instrument.Options{
-	".":                    {MapOrder: true},
+	".":                    {MapOrder: true, Globals: true},
 	"internal/importgraph": {MapOrder: true},
-	"iohelp":               {MapOrder: true, Alloc: true, Step: true},
+	"iohelp":               {MapOrder: true, Alloc: true, Step: true, Globals: true},
 }
 
 var genInstr = instrument.Options{MapOrder: true, Alloc: true, Step: true}
@@ -45,7 +45,7 @@ func timeoutFor(tier string) time.Duration {
 	if tier == "thorough" {
 		return 90 * time.Minute
 	}
-	return 12 * time.Minute
+	return 6 * time.Minute
 }
 
 func codecSeed(cfg *PropCfg, tier string, seed uint64, known []proto.KnownFinding, out *Outcome) error {
